@@ -800,8 +800,8 @@ def _datedif(ev, a, sh, at):
     u = ev.arg_scalar(a[2], sh, at)
     if not isinstance(u, str):
         raise NoOpinion('unit')
-    if d1.time() != dt.time(0) or d2.time() != dt.time(0):
-        raise NoOpinion('DATEDIF on date-times with a time part')
+    # the calendar dates count, not the times of day (a serial number's whole part)
+    d1, d2 = dt.datetime(d1.year, d1.month, d1.day), dt.datetime(d2.year, d2.month, d2.day)
     return datedif(d1, d2, u.upper())
 
 
